@@ -206,12 +206,15 @@ impl fmt::Display for Expr {
             match *expr {
                 Expr::Unit { ref name } => write_name(fmt, name),
                 Expr::Quote { ref string } => {
+                    // The escapes that the lexer knows inside quotes.
                     write!(fmt, "'")?;
                     for c in string.chars() {
-                        if c == '\'' || c == '\\' {
-                            write!(fmt, "\\")?;
+                        match c {
+                            '\'' => write!(fmt, "\\'")?,
+                            '\n' => write!(fmt, "\\n")?,
+                            '\t' => write!(fmt, "\\t")?,
+                            c => write!(fmt, "{}", c)?,
                         }
-                        write!(fmt, "{}", c)?;
                     }
                     write!(fmt, "'")
                 }
